@@ -9,7 +9,7 @@ from typing import Any
 from jinja2 import nodes
 
 from .. import tplq
-from ..astutil import Locals, call_name, calls_in, norm, region, short, stmt_of, truth_table, where
+from ..astutil import Locals, call_name, calls_in, norm, region, short, stmt_of, where
 from ..cfg import CFG
 from ..core import PKG, Report
 from ..jinja_interp import expr_text
@@ -18,8 +18,11 @@ from .c06 import MAY_RAISE, caught, handlers_around
 LEVEL = ("structural clauses: one status test per parsed response, a return is emitted in every status branch under every assignment "
          "of its guards and `return None` only where the plain variants are not generated (truth tables), the unexpected-status tail "
          "(raise or None) is unconditional and the dedicated error's constructor applies no conversion to the body that can raise; the "
-         "media-type -> source table read off the tests on the result of get_content_type equals the table in the property statement and "
-         "each source pairs an httpx accessor with its type; every path to property_from_data passes the no-content and no-schema "
+         "media-type classifier, decided as a truth table (the media type key and the result of get_content_type are abstract strings known "
+         "through the atoms is-None / == / startswith / endswith over the classifier's string literals; every consistent assignment is "
+         "followed along the path it selects), returns a source the property statement documents for the parsed type (a type in two "
+         "documented classes, text/x+json, may go to either), each source pairs an httpx accessor with its type and every Response built "
+         "by empty_response carries the none source; every path to property_from_data passes the no-content and no-schema "
          "tests (CFG dominance, guards evaluated); construct-or-cast; a failing type check of a union member aborts decoding only when "
          "nothing can follow it (truth table, flag found by role); _build_response forwards status, content, headers, parsed; "
          "blocking/asyncio parity; status parsing contained; reference resolution converges (shared with C20).")
@@ -106,6 +109,548 @@ def _python_of(frs: list) -> ast.Module | None:
 LENIENT_DECODE = {"ignore", "replace", "backslashreplace", "surrogateescape"}
 
 
+# ---- a path walker over guard atoms for small pure classifier functions ------------------------------------------------------
+# R04.2 asks what `_source_by_content_type` DECIDES from the media type, not how it is written (lookup table, if-chain, conditional
+# expression, helper predicate ...).  No string is ever run through the code: the media type is an ABSTRACT value (_AStr) of which only
+# the truth values of a finite vocabulary of atoms are known - `x is None`, `x == c`, `x.startswith(c)`, `x.endswith(c)` for the string
+# literals c of the classifier (a dict lookup / membership test is one `x == key` atom per key).  Every test of the code is a formula over
+# these atoms; for one truth assignment the walker follows the path the assignment selects (statements, conditional expressions, any / all
+# over literal tuples, dict lookups, private helpers inlined) to the source symbol it returns.  Module-level objects that are not literals
+# (the _ResponseSource constants) are opaque symbols compared by identity.  A test outside the vocabulary (a computed string, a regular
+# expression, ...) raises _Cannot, which the rule turns into an ANALYSIS-ERROR.
+
+class _Cannot(Exception):
+    pass
+
+
+@dataclasses.dataclass(frozen=True)
+class _Sym:
+    name: str
+    truthy: "bool | None" = None      # None: truth value unknown
+
+
+@dataclasses.dataclass(frozen=True)
+class _AStr:
+    """an abstract Optional[str]: `tag` names the truth assignment of its atoms in _Eval.facts"""
+    tag: str
+
+
+@dataclasses.dataclass(frozen=True)
+class _ASlice:
+    """x[:n] / x[-n:] of an abstract string: comparable with a literal of length n only (that is the prefix / suffix atom)"""
+    of: _AStr
+    head: bool
+    n: int
+
+
+class _Ret(Exception):
+    def __init__(self, v: Any) -> None:
+        self.v = v
+
+
+class _Brk(Exception):
+    pass
+
+
+class _Cnt(Exception):
+    pass
+
+
+class _Raised(Exception):
+    """a Python exception of the walked program (only those the walker itself models: KeyError, IndexError, StopIteration and the
+    AttributeError of a string method applied to None)"""
+
+    def __init__(self, kind: str) -> None:
+        self.kind = kind
+
+
+_EXC_PARENTS = {"KeyError": ("KeyError", "LookupError", "Exception", "BaseException"),
+                "IndexError": ("IndexError", "LookupError", "Exception", "BaseException"),
+                "StopIteration": ("StopIteration", "Exception", "BaseException"),
+                "AttributeError": ("AttributeError", "Exception", "BaseException")}
+_BUILTINS = {"len": len, "tuple": tuple, "list": list, "set": set, "frozenset": frozenset, "sorted": sorted, "any": None, "all": None,
+             "bool": None, "next": None, "isinstance": None, "dict": dict, "reversed": lambda x: list(reversed(x)), "enumerate": lambda x: list(enumerate(x)),
+             "zip": lambda *x: list(zip(*x))}
+
+
+class _Eval:
+    def __init__(self, module: Any, calls: "dict[str, Any]", facts: "dict[str, dict[tuple, bool]]") -> None:
+        """module: pyindex Module (its functions may be called, its variables read); calls: last name component of a call ->
+        python callable(list of positional args) that stands for a function outside the module; facts: tag of an abstract string ->
+        truth assignment of its atoms ("none",) / ("eq", c) / ("pre", c) / ("suf", c)"""
+        self.module = module
+        self.calls = calls
+        self.facts = facts
+        self.steps = 0
+        self._globals: dict[str, Any] = {}
+
+    # -- values ---------------------------------------------------------------------------------------------------------------
+    def atom(self, x: _AStr, kind: str, c: Any = None) -> bool:
+        f = self.facts[x.tag]
+        if kind == "none":
+            return f[("none",)]
+        if c is None and kind == "eq":
+            return f[("none",)]
+        if not isinstance(c, str):
+            raise _Cannot(f"media type tested against {c!r}")
+        if f[("none",)]:
+            if kind == "eq":
+                return False
+            raise _Raised("AttributeError")
+        if c == "" and kind in ("pre", "suf"):
+            return True
+        if (kind, c) not in f:
+            raise _Cannot(f"media type tested against {c!r}, which is not a literal of the classifier")
+        return f[(kind, c)]
+
+    def affix(self, x: _AStr, kind: str, arg: Any) -> bool:
+        """x.startswith(arg) / x.endswith(arg): arg a literal or a tuple of literals"""
+        if isinstance(arg, tuple):
+            if self.facts[x.tag][("none",)]:
+                raise _Raised("AttributeError")
+            return any(self.atom(x, kind, a) for a in arg)
+        return self.atom(x, kind, arg)
+
+    def member(self, x: _AStr, keys: Any) -> Any:
+        """the element of a literal collection the abstract string equals (one `x == key` atom per key), or _Cannot / KeyError marker"""
+        for k in keys:
+            if not (k is None or isinstance(k, str)):
+                raise _Cannot(f"media type looked up among {k!r}")
+            if self.atom(x, "eq", k):
+                return (k,)
+        return None
+
+    def truth(self, v: Any) -> bool:
+        if isinstance(v, _AStr):
+            return not self.atom(v, "none") and not self.atom(v, "eq", "")
+        if isinstance(v, _ASlice):
+            raise _Cannot("truth value of a slice of the media type")
+        if isinstance(v, _Sym):
+            if v.truthy is None:
+                raise _Cannot(f"truth value of {v.name}")
+            return v.truthy
+        return bool(v)
+
+    def global_(self, name: str) -> Any:
+        if name in self._globals:
+            return self._globals[name]
+        if name not in self.module.variables:
+            raise _Cannot(f"name {name}")
+        e = self.module.variables[name]
+        try:
+            v = self.expr(e, {})
+        except (_Cannot, _Raised):
+            # an object built by a call: opaque, identified by the module-level name; an instance constructed from fields (a TypedDict
+            # with entries, an attrs / dataclass object) is true
+            v = _Sym(name, True if isinstance(e, ast.Call) and (e.keywords or e.args) else None)
+        self._globals[name] = v
+        return v
+
+    # -- functions ------------------------------------------------------------------------------------------------------------
+    def call_function(self, fn: ast.FunctionDef, args: list[Any], kwargs: dict[str, Any], depth: int = 0) -> Any:
+        if depth > 4:
+            raise _Cannot("call depth")
+        a = fn.args
+        if a.vararg or a.kwarg:
+            raise _Cannot("*args / **kwargs")
+        pos = [*a.posonlyargs, *a.args]
+        env: dict[str, Any] = {}
+        for p, d in zip(pos[len(pos) - len(a.defaults):], a.defaults):
+            env[p.arg] = self.expr(d, {})
+        for p, d in zip(a.kwonlyargs, a.kw_defaults):
+            if d is not None:
+                env[p.arg] = self.expr(d, {})
+        if len(args) > len(pos):
+            raise _Cannot("too many arguments")
+        for p, v in zip(pos, args):
+            env[p.arg] = v
+        env.update(kwargs)
+        missing = [p.arg for p in [*pos, *a.kwonlyargs] if p.arg not in env]
+        if missing:
+            raise _Cannot(f"unbound parameters {missing}")
+        env["__depth__"] = depth
+        try:
+            self.block(fn.body, env)
+        except _Ret as r:
+            return r.v
+        return None
+
+    # -- statements -----------------------------------------------------------------------------------------------------------
+    def bind(self, t: ast.AST, v: Any, env: dict[str, Any]) -> None:
+        if isinstance(t, ast.Name):
+            env[t.id] = v
+        elif isinstance(t, (ast.Tuple, ast.List)) and isinstance(v, (tuple, list)) and len(v) == len(t.elts) and \
+                not any(isinstance(e, ast.Starred) for e in t.elts):
+            for e, x in zip(t.elts, v):
+                self.bind(e, x, env)
+        else:
+            raise _Cannot(f"assignment target {norm(t)}")
+
+    def block(self, body: list[ast.stmt], env: dict[str, Any]) -> None:
+        for st in body:
+            self.steps += 1
+            if self.steps > 20000:
+                raise _Cannot("step budget")
+            if isinstance(st, ast.Expr):
+                if not isinstance(st.value, ast.Constant):
+                    self.expr(st.value, env)
+            elif isinstance(st, ast.Pass):
+                pass
+            elif isinstance(st, ast.Return):
+                raise _Ret(self.expr(st.value, env) if st.value is not None else None)
+            elif isinstance(st, ast.Assign):
+                v = self.expr(st.value, env)
+                for t in st.targets:
+                    self.bind(t, v, env)
+            elif isinstance(st, ast.AnnAssign):
+                if st.value is not None:
+                    self.bind(st.target, self.expr(st.value, env), env)
+            elif isinstance(st, ast.If):
+                self.block(st.body if self.truth(self.expr(st.test, env)) else st.orelse, env)
+            elif isinstance(st, ast.For):
+                it = self.expr(st.iter, env)
+                if not isinstance(it, (tuple, list, dict, set, frozenset, str)):
+                    raise _Cannot(f"iteration over {norm(st.iter)}")
+                broke = False
+                for x in list(it):
+                    self.bind(st.target, x, env)
+                    try:
+                        self.block(st.body, env)
+                    except _Brk:
+                        broke = True
+                        break
+                    except _Cnt:
+                        continue
+                if not broke:
+                    self.block(st.orelse, env)
+            elif isinstance(st, ast.Break):
+                raise _Brk()
+            elif isinstance(st, ast.Continue):
+                raise _Cnt()
+            elif isinstance(st, ast.Try) and not st.finalbody:
+                try:
+                    self.block(st.body, env)
+                except _Raised as r:
+                    for h in st.handlers:
+                        types = [h.type] if h.type is not None and not isinstance(h.type, ast.Tuple) else list(h.type.elts) if h.type is not None else []
+                        if h.type is None or any(norm(t).rsplit(".", 1)[-1] in _EXC_PARENTS[r.kind] for t in types):
+                            if h.name:
+                                env[h.name] = _Sym(f"<{r.kind}>", True)
+                            self.block(h.body, env)
+                            break
+                    else:
+                        raise
+                else:
+                    self.block(st.orelse, env)
+            else:
+                raise _Cannot(f"statement {type(st).__name__}")
+
+    # -- expressions ----------------------------------------------------------------------------------------------------------
+    def comp(self, gens: list[ast.comprehension], env: dict[str, Any], emit: Any) -> None:
+        if not gens:
+            emit(env)
+            return
+        g = gens[0]
+        if g.is_async:
+            raise _Cannot("async comprehension")
+        it = self.expr(g.iter, env)
+        if not isinstance(it, (tuple, list, dict, set, frozenset, str)):
+            raise _Cannot(f"iteration over {norm(g.iter)}")
+        for x in list(it):
+            e2 = dict(env)
+            self.bind(g.target, x, e2)
+            if all(self.truth(self.expr(c, e2)) for c in g.ifs):
+                self.comp(gens[1:], e2, emit)
+
+    def expr(self, e: ast.AST, env: dict[str, Any]) -> Any:
+        self.steps += 1
+        if self.steps > 20000:
+            raise _Cannot("step budget")
+        if isinstance(e, ast.Constant):
+            if not isinstance(e.value, (str, int, bool, type(None))):
+                raise _Cannot(f"constant {e.value!r}")
+            return e.value
+        if isinstance(e, ast.Name):
+            return env[e.id] if e.id in env else self.global_(e.id)
+        if isinstance(e, ast.NamedExpr):
+            v = self.expr(e.value, env)
+            self.bind(e.target, v, env)
+            return v
+        if isinstance(e, (ast.Tuple, ast.List, ast.Set)):
+            if any(isinstance(x, ast.Starred) for x in e.elts):
+                raise _Cannot("starred element")
+            xs = [self.expr(x, env) for x in e.elts]
+            return tuple(xs) if isinstance(e, ast.Tuple) else xs if isinstance(e, ast.List) else set(xs)
+        if isinstance(e, ast.Dict):
+            if any(k is None for k in e.keys):
+                raise _Cannot("dict unpacking")
+            return {self.expr(k, env): self.expr(v, env) for k, v in zip(e.keys, e.values)}
+        if isinstance(e, (ast.ListComp, ast.SetComp, ast.GeneratorExp)):
+            out: list[Any] = []
+            self.comp(e.generators, env, lambda e2: out.append(self.expr(e.elt, e2)))
+            return set(out) if isinstance(e, ast.SetComp) else out
+        if isinstance(e, ast.DictComp):
+            d: dict[Any, Any] = {}
+            self.comp(e.generators, env, lambda e2: d.__setitem__(self.expr(e.key, e2), self.expr(e.value, e2)))
+            return d
+        if isinstance(e, ast.BoolOp):
+            v = None
+            for x in e.values:
+                v = self.expr(x, env)
+                if self.truth(v) != isinstance(e.op, ast.And):
+                    return v
+            return v
+        if isinstance(e, ast.UnaryOp) and isinstance(e.op, ast.Not):
+            return not self.truth(self.expr(e.operand, env))
+        if isinstance(e, ast.UnaryOp) and isinstance(e.op, ast.USub):
+            v = self.expr(e.operand, env)
+            if type(v) is not int:
+                raise _Cannot(f"operand of {norm(e)}")
+            return -v
+        if isinstance(e, ast.IfExp):
+            return self.expr(e.body if self.truth(self.expr(e.test, env)) else e.orelse, env)
+        if isinstance(e, ast.Compare):
+            left = self.expr(e.left, env)
+            for op, r in zip(e.ops, e.comparators):
+                right = self.expr(r, env)
+                if not self.compare(op, left, right):
+                    return False
+                left = right
+            return True
+        if isinstance(e, ast.BinOp) and isinstance(e.op, ast.Add):
+            l, r = self.expr(e.left, env), self.expr(e.right, env)
+            if type(l) is type(r) and isinstance(l, (str, tuple, list)):
+                return l + r
+            raise _Cannot(f"operands of {norm(e)}")
+        if isinstance(e, ast.Subscript):
+            base = self.expr(e.value, env)
+            if isinstance(base, _Sym):
+                raise _Cannot(f"subscript of {base.name}")
+            if isinstance(base, _AStr):
+                sl = e.slice
+                if isinstance(sl, ast.Slice) and sl.step is None:
+                    lo = self.expr(sl.lower, env) if sl.lower is not None else None
+                    hi = self.expr(sl.upper, env) if sl.upper is not None else None
+                    if lo in (None, 0) and type(hi) is int and hi > 0:
+                        return _ASlice(base, True, hi)
+                    if hi is None and type(lo) is int and lo < 0:
+                        return _ASlice(base, False, -lo)
+                raise _Cannot(f"subscript {norm(e)} of the media type")
+            if isinstance(base, _ASlice):
+                raise _Cannot(f"subscript {norm(e)}")
+            if isinstance(e.slice, ast.Slice):
+                lo, hi, stp = (self.expr(x, env) if x is not None else None for x in (e.slice.lower, e.slice.upper, e.slice.step))
+                if not isinstance(base, (str, tuple, list)) or not all(x is None or type(x) is int for x in (lo, hi, stp)):
+                    raise _Cannot(f"slice {norm(e)}")
+                return base[lo:hi:stp]
+            k = self.expr(e.slice, env)
+            if isinstance(k, _AStr) and isinstance(base, dict):
+                hit = self.member(k, base)
+                if hit is None:
+                    raise _Raised("KeyError")
+                return base[hit[0]]
+            if isinstance(k, (_AStr, _ASlice)):
+                raise _Cannot(f"subscript {norm(e)}")
+            try:
+                return base[k]
+            except KeyError:
+                raise _Raised("KeyError") from None
+            except IndexError:
+                raise _Raised("IndexError") from None
+            except TypeError:
+                raise _Cannot(f"subscript {norm(e)}") from None
+        if isinstance(e, ast.Call):
+            return self.call(e, env)
+        raise _Cannot(f"expression {type(e).__name__}")
+
+    def compare(self, op: ast.cmpop, l: Any, r: Any) -> bool:
+        if any(isinstance(x, (_AStr, _ASlice)) for x in (l, r)):
+            return self.compare_abstract(op, l, r)
+        if isinstance(op, (ast.Is, ast.IsNot)):
+            # identity is modelled for None, the booleans and opaque module-level objects (one object per name)
+            if l is None or r is None:
+                same = l is None and r is None
+            elif isinstance(l, bool) and isinstance(r, bool):
+                same = l is r
+            elif isinstance(l, _Sym) and isinstance(r, _Sym):
+                same = l == r
+            else:
+                raise _Cannot("identity of values")
+            return same if isinstance(op, ast.Is) else not same
+        try:
+            if isinstance(op, ast.Eq):
+                return bool(l == r)
+            if isinstance(op, ast.NotEq):
+                return bool(l != r)
+            if isinstance(op, (ast.In, ast.NotIn)):
+                if isinstance(r, _Sym) or isinstance(r, str) and not isinstance(l, str):
+                    raise _Cannot("membership")
+                return (l in r) if isinstance(op, ast.In) else (l not in r)
+            if isinstance(l, _Sym) or isinstance(r, _Sym):
+                raise _Cannot("ordering of opaque values")
+            if isinstance(op, ast.Lt):
+                return l < r
+            if isinstance(op, ast.LtE):
+                return l <= r
+            if isinstance(op, ast.Gt):
+                return l > r
+            if isinstance(op, ast.GtE):
+                return l >= r
+        except TypeError:
+            raise _Cannot("comparison") from None
+        raise _Cannot(f"operator {type(op).__name__}")
+
+    def compare_abstract(self, op: ast.cmpop, l: Any, r: Any) -> bool:
+        """a comparison that involves the abstract media type: the atom it stands for"""
+        neg = isinstance(op, (ast.IsNot, ast.NotEq, ast.NotIn))
+        if isinstance(op, (ast.Is, ast.IsNot, ast.Eq, ast.NotEq)):
+            x, other = (l, r) if isinstance(l, (_AStr, _ASlice)) else (r, l)
+            if isinstance(other, (_AStr, _ASlice)):
+                raise _Cannot("comparison of two abstract strings")
+            if isinstance(x, _AStr):
+                if other is None:
+                    v = self.atom(x, "none")
+                elif isinstance(other, str) and isinstance(op, (ast.Eq, ast.NotEq)):
+                    v = self.atom(x, "eq", other)
+                elif isinstance(other, _Sym) or isinstance(other, (bool, int, tuple, list, dict, set, frozenset)):
+                    v = False       # a media type is a string or None
+                else:
+                    raise _Cannot("identity of strings")
+            else:
+                if not (isinstance(other, str) and isinstance(op, (ast.Eq, ast.NotEq))):
+                    raise _Cannot("comparison of a slice of the media type")
+                if len(other) != x.n:
+                    # x[:n] == c with len(c) != n: false for every x (a shorter x gives a shorter slice, never a longer one) unless x itself is short
+                    raise _Cannot(f"slice of length {x.n} compared with {other!r}")
+                v = self.atom(x.of, "pre" if x.head else "suf", other)
+            return v != neg
+        if isinstance(op, (ast.In, ast.NotIn)) and isinstance(l, _AStr) and isinstance(r, (tuple, list, set, frozenset, dict)):
+            return (self.member(l, r) is not None) != neg
+        raise _Cannot(f"operator {type(op).__name__} on the media type")
+
+    def call(self, c: ast.Call, env: dict[str, Any]) -> Any:
+        if any(isinstance(a, ast.Starred) for a in c.args) or any(k.arg is None for k in c.keywords):
+            raise _Cannot("argument unpacking")
+        last = call_name(c).rsplit(".", 1)[-1]
+        args = [self.expr(a, env) for a in c.args]
+        kwargs = {k.arg: self.expr(k.value, env) for k in c.keywords}
+        # a function outside the module that the caller gave a meaning to
+        if last in self.calls and not (isinstance(c.func, ast.Name) and (c.func.id in env or c.func.id in self.module.functions)):
+            return self.calls[last](args + list(kwargs.values()))
+        if isinstance(c.func, ast.Name):
+            nm = c.func.id
+            if nm in env:
+                raise _Cannot(f"call of local {nm}")
+            if nm in self.module.functions:
+                return self.call_function(self.module.functions[nm].node, args, kwargs, env.get("__depth__", 0) + 1)
+            if nm in _BUILTINS and not kwargs:
+                if nm == "any":
+                    return any(self.truth(x) for x in self._iter(args))
+                if nm == "all":
+                    return all(self.truth(x) for x in self._iter(args))
+                if nm == "bool":
+                    return self.truth(args[0]) if args else False
+                if nm == "next":
+                    xs = list(self._iter(args[:1]))
+                    if xs:
+                        return xs[0]
+                    if len(args) > 1:
+                        return args[1]
+                    raise _Raised("StopIteration")
+                if nm == "isinstance":
+                    if len(c.args) == 2 and isinstance(c.args[1], ast.Name) and c.args[1].id == "str" and not isinstance(args[0], (_Sym, _ASlice)):
+                        return not self.atom(args[0], "none") if isinstance(args[0], _AStr) else isinstance(args[0], str)
+                    raise _Cannot("isinstance")
+                try:
+                    return _BUILTINS[nm](*args)
+                except TypeError:
+                    raise _Cannot(f"call {norm(c)}") from None
+            raise _Cannot(f"call {norm(c)}")
+        if isinstance(c.func, ast.Attribute):
+            recv = self.expr(c.func.value, env)
+            m = c.func.attr
+            try:
+                if isinstance(recv, _AStr) and m in ("startswith", "endswith") and not kwargs and len(args) == 1:
+                    return self.affix(recv, "pre" if m == "startswith" else "suf", args[0])
+                if isinstance(recv, dict) and not kwargs:
+                    if m == "get" and 1 <= len(args) <= 2 and isinstance(args[0], _AStr):
+                        hit = self.member(args[0], recv)
+                        return recv[hit[0]] if hit is not None else (args[1] if len(args) > 1 else None)
+                    if m == "get" and 1 <= len(args) <= 2 and not isinstance(args[0], _ASlice):
+                        return recv.get(*args)
+                    if m in ("items", "keys", "values") and not args:
+                        return list(getattr(recv, m)())
+            except TypeError:
+                raise _Cannot(f"call {norm(c)}") from None
+        raise _Cannot(f"call {norm(c)}")
+
+    def _iter(self, args: list[Any]) -> list[Any]:
+        if len(args) != 1 or not isinstance(args[0], (tuple, list, dict, set, frozenset)):
+            raise _Cannot("iterable argument")
+        return list(args[0])
+
+
+# the property statement's media-type table as a formula over the atoms: which sources a (parsed, overrides applied) media type with the
+# given truth assignment may be decoded from.  A type such as text/x+json belongs to two documented classes; the statement does not rank
+# them, so either is admitted there.
+def _documented_sources(f: "dict[tuple, bool]") -> set:
+    if f[("none",)]:
+        return {None}
+    out: set = set()
+    if f[("pre", "text/")]:
+        out.add("TEXT_SOURCE")
+    if f[("eq", "application/json")] or f[("suf", "+json")]:
+        out.add("JSON_SOURCE")
+    if f[("eq", "application/octet-stream")]:
+        out.add("BYTES_SOURCE")
+    return out or {None}
+
+
+DOCUMENTED_AFFIXES = ("text/", "application/json", "application/octet-stream", "+json")
+
+
+def _string_classes(consts: list[str], optional: bool) -> "list[tuple[str, dict[tuple, bool]]]":
+    """(description, truth assignment) for every assignment of the atoms none / eq:c / pre:c / suf:c (c in consts, plus eq:"") that some
+    Optional[str] satisfies.  The theory is decided on the constants themselves: None excludes every other atom; x == c0 fixes all atoms to
+    what c0 itself satisfies (so two equalities exclude each other); otherwise no equality holds, the prefixes that hold are exactly the
+    constants that are a prefix of the longest one that holds (two prefixes are compatible only if one is a prefix of the other), likewise
+    the suffixes, and prefix and suffix atoms are independent of each other (a long enough string realises any such pair)."""
+    cs = [c for c in consts if c != ""]
+    atoms = [("none",), ("eq", "")] + [(k, c) for c in cs for k in ("eq", "pre", "suf")]
+    out: list[tuple[str, dict[tuple, bool]]] = []
+    if optional:
+        out.append(("is None", {a: a == ("none",) for a in atoms}))
+    for c0 in [""] + cs:
+        f = {("none",): False, ("eq", ""): c0 == ""}
+        for c in cs:
+            f[("eq", c)] = c == c0
+            f[("pre", c)] = c0.startswith(c)
+            f[("suf", c)] = c0.endswith(c)
+        out.append((f"== {c0!r}", f))
+    for pre in [None] + cs:
+        for suf in [None] + cs:
+            f = {("none",): False, ("eq", ""): False}
+            for c in cs:
+                f[("eq", c)] = False
+                f[("pre", c)] = pre is not None and pre.startswith(c)
+                f[("suf", c)] = suf is not None and suf.endswith(c)
+            desc = " and ".join(([f"starts with {pre!r}"] if pre is not None else []) + ([f"ends with {suf!r}"] if suf is not None else []))
+            out.append(((desc + ", no literal equals it") if desc else "matches no literal", f))
+    uniq: list[tuple[str, dict[tuple, bool]]] = []
+    for d, f in out:
+        if not any(f == g for _, g in uniq):
+            uniq.append((d, f))
+    return uniq
+
+
+def _follow(e: ast.AST | None, lc: Locals, depth: int = 4) -> ast.AST | None:
+    """the expression a local name stands for (single definition), transitively"""
+    while isinstance(e, ast.Name) and depth and len(lc.values_of(e.id)) == 1 and lc.defs[e.id][0][0] == "assign":
+        e = lc.values_of(e.id)[0]
+        depth -= 1
+    return e
+
+
 def run(rep: Report, ctx: Any) -> str:
     ix = ctx.py
     jx = ctx.jinja
@@ -116,7 +661,8 @@ def run(rep: Report, ctx: Any) -> str:
                       "endpoint.responses; under every assignment of the guards a status branch emits a return, and whenever the plain "
                       "variants (`def sync(`) are generated it is the decoded value, never None; the tail (raise UnexpectedStatus if "
                       "client.raise_on_unexpected_status else return None) is emitted unconditionally")
-    rep.rule("R04.2", "media type -> source, decided on the result of get_content_type (overrides applied): text/* -> response.text:str, "
+    rep.rule("R04.2", "media type -> source, decided on the result of get_content_type (overrides applied) whatever the document's key is "
+                      "(truth table over the ==/startswith/endswith/is-None atoms of the classifier's literals, paths followed): text/* -> response.text:str, "
                       "application/json and +json -> response.json(), application/octet-stream -> response.content:bytes; no content / no "
                       "schema -> None: every path to property_from_data passes a test sending missing/empty content, and one sending a "
                       "None schema, to `return empty_response(...)`")
@@ -222,57 +768,124 @@ def run(rep: Report, ctx: Any) -> str:
     rep.require(rmod, "responses module")
     consts = {}
     for name, val in rmod.variables.items():
-        if isinstance(val, ast.Call) and call_name(val) == "_ResponseSource":
+        # `_ResponseSource(attribute=..., return_type=...)`, `dict(...)` or a dict literal: the same TypedDict value
+        if isinstance(val, ast.Call) and call_name(val) in ("_ResponseSource", "dict") and not val.args:
             consts[name] = {k.arg: k.value.value for k in val.keywords if isinstance(k.value, ast.Constant)}
+        elif isinstance(val, ast.Call) and call_name(val) == "_ResponseSource" and len(val.args) == 1 and isinstance(val.args[0], ast.Dict):
+            val = val.args[0]
+        if isinstance(val, ast.Dict):
+            consts[name] = {k.value: v.value for k, v in zip(val.keys, val.values) if isinstance(k, ast.Constant) and isinstance(v, ast.Constant)}
     want_src = {"JSON_SOURCE": ("response.json()", "Any"), "BYTES_SOURCE": ("response.content", "bytes"),
                 "TEXT_SOURCE": ("response.text", "str"), "NONE_SOURCE": ("None", "None")}
     for nm, (attr, rt) in want_src.items():
         got = consts.get(nm, {})
         rep.check(got.get("attribute") == attr and got.get("return_type") == rt, "R04.2", f"responses::{nm}",
                   f"{nm} pairs {got.get('attribute')} with {got.get('return_type')}", where=f"{rmod.rel}", lhs=got, rhs={"attribute": attr, "return_type": rt})
-    sb = ix.func("responses._source_by_content_type")
-    # The table is read off the tests applied to the *result of get_content_type* (the parsed media type with content_type_overrides
-    # applied), whatever that local is called; a test applied to anything else (the raw key) is listed apart and makes the table differ.
-    sl = Locals(sb.node)
-    parsed = set(sl.bound_from(lambda v: "get_content_type(" in v, "assign"))
-
-    def tag(e: ast.AST) -> str:
-        return "" if isinstance(e, ast.Name) and e.id in parsed else "unoverridden:"
-
-    def outcome(stmts: list[ast.stmt]) -> str | None:
-        r = next((x for x in stmts if isinstance(x, (ast.Return, ast.Assign)) and x.value is not None), None)
-        return norm(r.value) if r is not None else None
-
-    assoc: dict[str, str] = {}
-    for n in ast.walk(sb.node):
-        if isinstance(n, ast.If):
-            for c in calls_in(n.test):
-                if isinstance(c.func, ast.Attribute) and c.func.attr in ("startswith", "endswith") and c.args and isinstance(c.args[0], ast.Constant):
-                    # the branch taken when the affix test holds: the one some assignment of the test's atoms reaches only with it true
-                    atom = norm(c)
-                    tt = list(truth_table(n.test))
-                    with_it = {res for env, res in tt if env.get(atom)}
-                    without = {res for env, res in tt if not env.get(atom)}
-                    branch = n.body if True in with_it and True not in without else n.orelse if False in with_it and False not in without else None
-                    v = outcome(branch) if branch else None
-                    if v is not None:
-                        assoc[f"{tag(c.func.value)}{'prefix' if c.func.attr == 'startswith' else 'suffix'}:{c.args[0].value}"] = v
-        if isinstance(n, ast.Dict):
-            holders = {nm for nm in sl.defs if any(v is n for v in sl.values_of(nm))}
-            keys = [c.args[0] for c in calls_in(sb.node) if isinstance(c.func, ast.Attribute) and c.func.attr == "get" and c.args
-                    and (c.func.value is n or isinstance(c.func.value, ast.Name) and c.func.value.id in holders)]
-            keys += [x.slice for x in ast.walk(sb.node) if isinstance(x, ast.Subscript)
-                     and (x.value is n or isinstance(x.value, ast.Name) and x.value.id in holders)]
-            t = "" if keys and all(tag(k) == "" for k in keys) else "unoverridden:"
-            for k, v in zip(n.keys, n.values):
-                if isinstance(k, ast.Constant):
-                    assoc[f"{t}exact:{k.value}"] = norm(v)
-    want = {"prefix:text/": "TEXT_SOURCE", "exact:application/json": "JSON_SOURCE", "exact:application/octet-stream": "BYTES_SOURCE",
-            "suffix:+json": "JSON_SOURCE"}
-    rep.check(assoc == want, "R04.2", "_source_by_content_type::table", f"media type table is {assoc}", where(sb, sb.node), lhs=assoc, rhs=want)
-    er = ix.func("responses.empty_response")
-    rep.check("source=NONE_SOURCE" in norm(er.node), "R04.2", "empty_response::none-source", "an empty response is not decoded to None", where(er, er.node))
     rfd = ix.func("responses.response_from_data")
+    # The table is not read off the shape of the classifier (lookup table, if-chain, conditional expression, helper predicates are all
+    # the same decision) but decided as a truth table over guard atoms: the document's key and the result of get_content_type are two
+    # abstract strings known only through the atoms `is None`, `== c`, `.startswith(c)`, `.endswith(c)` over the string literals of the
+    # classifier and of the statement's table.  For every consistent assignment of these atoms (_string_classes) the path the assignment
+    # selects is followed to the source symbol it returns, which must be one the property statement documents for a *parsed* media type
+    # (overrides applied) satisfying the assignment - whatever the key's atoms are: a test applied to the raw key shows up as an assignment
+    # pair decoded from the wrong source.  Nothing is executed and no string is constructed.
+    GCT = "get_content_type"
+
+    def calls_gct(g: Any) -> bool:
+        return any(call_name(c).rsplit(".", 1)[-1] == GCT for c in calls_in(g.node))
+
+    if ix.has_func("responses._source_by_content_type"):
+        sb = ix.func("responses._source_by_content_type")
+    else:
+        # renamed / merged: the helper of the response parser that turns the media type into the parsed one
+        sb = next((g for g in region(ix, rfd) if g is not rfd and calls_gct(g)), None)
+    rep.require(sb, "the function of the response parser that classifies a media type (calls get_content_type)")
+    sb_region = region(ix, sb)
+    pos_params = [p.arg for p in [*sb.node.args.posonlyargs, *sb.node.args.args]] or [p.arg for p in sb.params]
+    rep.require(pos_params, "media type parameter of the classifier")
+    key_param = "content_type" if "content_type" in [p.arg for p in sb.params] else pos_params[0]
+    parsed_by_caller = not any(calls_gct(g) for g in sb_region)
+    if parsed_by_caller:
+        # get_content_type was moved in front of the classifier: every call of the classifier in the response parser must hand it that result
+        handed = []
+        for g in region(ix, rfd):
+            lc_g = Locals(g.node)
+            for c in calls_in(g.node):
+                if call_name(c).rsplit(".", 1)[-1] == sb.name and g is not sb:
+                    a0 = _follow(c.args[0] if c.args else next((k.value for k in c.keywords if k.arg == key_param), None), lc_g)
+                    handed.append(isinstance(a0, ast.Call) and call_name(a0).rsplit(".", 1)[-1] == GCT)
+        rep.require(handed and all(handed), "get_content_type(...) applied to the media type, inside the classifier or on the value handed to it")
+    code_consts: list[str] = []
+    used = {n.id for g in sb_region for n in ast.walk(g.node) if isinstance(n, ast.Name)}
+    table_vars = [v for k, v in rmod.variables.items() if k in used and not isinstance(v, ast.Call)]  # module-level tables the classifier reads
+    for holder in [g.node for g in sb_region] + table_vars:
+        doc = ast.get_docstring(holder) if isinstance(holder, (ast.FunctionDef, ast.AsyncFunctionDef)) else None
+        for n in ast.walk(holder):
+            if isinstance(n, ast.Constant) and isinstance(n.value, str) and n.value and n.value != doc and n.value not in code_consts:
+                code_consts.append(n.value)
+    consts_all = list(DOCUMENTED_AFFIXES) + [c for c in code_consts if c not in DOCUMENTED_AFFIXES]
+    rep.require(len(consts_all) <= 8, "few enough string literals in the media type classifier to enumerate the assignments of their atoms")
+    parsed_classes = _string_classes(consts_all, optional=True)     # get_content_type returns Optional[str]
+    raw_classes = _string_classes(consts_all, optional=False)       # the document's key is a string
+    if parsed_by_caller:
+        raw_classes = raw_classes[:1]                               # the classifier never sees the key
+
+    def classify(raw_f: "dict[tuple, bool]", parsed_f: "dict[tuple, bool]") -> Any:
+        raw_v, parsed_v = _AStr("raw"), _AStr("parsed")
+
+        def gct(args: list[Any]) -> Any:
+            if not args or args[0] is not raw_v:
+                raise _Cannot("get_content_type applied to something other than the media type key")
+            return parsed_v
+
+        ev = _Eval(rmod, {GCT: gct}, {"raw": raw_f, "parsed": parsed_f})
+        kw = {p.arg: _Sym(f"<{p.arg}>") for p in sb.params}
+        kw[key_param] = parsed_v if parsed_by_caller else raw_v
+        try:
+            v = ev.call_function(sb.node, [], kw)
+        except _Raised as r:
+            return f"<raises {r.kind}>"
+        if isinstance(v, _Sym):
+            return v.name
+        if isinstance(v, _AStr):
+            return None if ev.atom(v, "none") else "<the media type itself>"
+        # a module-level object that happens to be a literal: named, like the opaque ones, after the variable that holds it
+        return next((k for k, g in ev._globals.items() if g is v and v is not None), v if v is None or isinstance(v, (str, int, bool)) else repr(v))
+
+    wrong: list[dict[str, Any]] = []
+    try:
+        for p_desc, p_f in parsed_classes:
+            want_p = _documented_sources(p_f)
+            for r_desc, r_f in raw_classes:
+                got = classify(r_f, p_f)
+                if got not in want_p and len(wrong) < 4:
+                    wrong.append({"document's key": "-" if parsed_by_caller else r_desc, "result of get_content_type": p_desc, "decoded from": got,
+                                  "documented": sorted(map(str, want_p))})
+    except _Cannot as e:
+        rep.require(False, f"tests of {short(sb)} expressible over the atoms ==, startswith, endswith, is None of its literals ({e})")
+    rep.check(not wrong, "R04.2", "_source_by_content_type::table",
+              f"the media type table differs from the documented one, e.g. {wrong[0] if wrong else None}", where(sb, sb.node), lhs=wrong,
+              rhs="text/* -> TEXT_SOURCE, application/json and +json -> JSON_SOURCE, application/octet-stream -> BYTES_SOURCE, anything else / "
+                  "unparsable -> None, decided on the result of get_content_type")
+    # counted by role: consistent truth assignments of the parsed media type's atoms (each against every assignment of the key's), not paths
+    rep.floor("media_types_classified", len(parsed_classes), 15)
+    er = ix.func("responses.empty_response")
+    # every Response the empty-response constructor (or a private helper of it) builds carries NONE_SOURCE, however the argument gets there
+    rcls = rmod.classes.get("Response")
+    r_fields = list(rcls.fields) if rcls is not None else []
+    built = []
+    for g in region(ix, er):
+        lc_g = Locals(g.node)
+        for c in calls_in(g.node):
+            if call_name(c).rsplit(".", 1)[-1] == "Response":
+                src = next((k.value for k in c.keywords if k.arg == "source"), None)
+                if src is None and "source" in r_fields and len(c.args) > r_fields.index("source"):
+                    src = c.args[r_fields.index("source")]
+                src = _follow(src, lc_g)
+                built.append(norm(src).rsplit(".", 1)[-1] if src is not None else None)
+    rep.require(built, "Response(...) construction in empty_response")
+    rep.check(all(b == "NONE_SOURCE" for b in built), "R04.2", "empty_response::none-source", "an empty response is not decoded to None", where(er, er.node),
+              lhs=built, rhs="source=NONE_SOURCE")
     # no content / no schema: the schema that gets decoded is whatever is handed to property_from_data(data=...).  Every path to that call
     # must pass (a) a test that sends "the response's content is missing / empty" and (b) a test that sends "that schema is None" to a
     # branch returning empty_response(...).  Guards are evaluated, not compared: early return or nested if, either polarity.
@@ -399,7 +1012,10 @@ def run(rep: Report, ctx: Any) -> str:
     params = {p.arg for p in rfd.params}
     branch = next((n for n in ast.walk(rfd.node) if isinstance(n, ast.If) and "isinstance(data, oai.Reference)" in norm(n.test)), None)
     rep.require(branch, "reference branch in response_from_data")
-    assigned = {x.id for s in branch.body for n in ast.walk(s) if isinstance(n, (ast.Assign, ast.AugAssign))
+    # the arm taken for a reference, whichever polarity the test is written in (undetermined: both arms)
+    taken = _k3(branch.test, {"isinstance(data, oai.Reference)": True})
+    ref_arm = branch.body if taken is True else branch.orelse if taken is False else branch.body + branch.orelse
+    assigned = {x.id for s in ref_arm for n in ast.walk(s) if isinstance(n, (ast.Assign, ast.AugAssign))
                 for t_ in (n.targets if isinstance(n, ast.Assign) else [n.target]) for x in ast.walk(t_) if isinstance(x, ast.Name)}
     leak = sorted((assigned & params) - {"data"})
     rep.check(not leak, "R04.7", "response_from_data::reference-branch-rebinds-only-data",
